@@ -291,17 +291,23 @@ Definition cut_last_slash (path : str) : outcome str :=
   | None => Panic
   end.
 
-(* doDelete *)
-Definition do_delete (prefix p : gpath) (ti : tinfo) : outcome tinfo :=
+(* doDelete: where the delete lands.  The effective path; the enclosing list entry when an exact key leaf
+   is named ("in case an index attribute is given - take it off"); then every index value of that path must
+   obey IndexAllowedChars (fix a2a122e) *)
+Definition delete_landing (rw : list rw_entry) (prefix p : gpath) : outcome str :=
   let path := effective_path prefix p in
-  match find_path_from_model path (pl_rw (ti_plugin ti)) false with
-  | FoundExact e =>
-    bind (if rw_is_key e && negb (suffixb [c_rbr] path) then cut_last_slash path else Ok path)
-         (fun path' => Ok (mkTi (ti_plugin ti) (ti_updates ti) (ti_removes ti ++ [path'])))
-  | FoundPrefix => Ok (mkTi (ti_plugin ti) (ti_updates ti) (ti_removes ti ++ [path]))
-  | NotInModel => Err CInvalid
-  | NotExact => Err CInternal     (* unreachable with exact = false *)
-  end.
+  bind (match find_path_from_model path rw false with
+        | FoundExact e => if rw_is_key e && negb (suffixb [c_rbr] path) then cut_last_slash path else Ok path
+        | FoundPrefix => Ok path
+        | NotInModel => Err CInvalid
+        | NotExact => Err CInternal     (* unreachable with exact = false *)
+        end)
+       (fun path' => if forallb (fun nv => index_value_ok (snd nv)) (extract_index_names path')
+                     then Ok path' else Err CInvalid).
+
+Definition do_delete (prefix p : gpath) (ti : tinfo) : outcome tinfo :=
+  bind (delete_landing (pl_rw (ti_plugin ti)) prefix p)
+       (fun path' => Ok (mkTi (ti_plugin ti) (ti_updates ti) (ti_removes ti ++ [path']))).
 
 Inductive rop := RDel (p : gpath) | RUpd (u : update).
 
